@@ -23,7 +23,7 @@ EXPLANATION = (
     "rules are evaluated on numeral x prefix x suffix and their answers parsed and compared with what each rule "
     "promises; substitute() is checked to leave its argument list unchanged.")
 TRUSTED = ["CPython ast module", "mingus_static abstract evaluator", "C04 key oracle, C06 chord oracle, C07 recognition model"]
-NOT_DECIDED = "substitution recursion beyond depth 1; prefixes beyond +-6 (the formatter's folding of larger counts is reported as NOTE only)"
+NOT_DECIDED = "substitution recursion beyond depth 2; prefixes beyond +-6 (the formatter's folding of larger counts is reported as NOTE only)"
 
 P = "mingus.core.progressions"
 FUNCS = ["tonic", "supertonic", "mediant", "subdominant", "dominant", "submediant", "subtonic"]
@@ -333,6 +333,12 @@ def _parse_numeral(s):
     return m.group(2), acc, m.group(3)
 
 
+def _canonical(s):
+    """The spelling parse followed by format leaves alone: the prefix is all sharps or all flats."""
+    m = _NUM_RE.match(s)
+    return bool(m) and len(set(m.group(1))) <= 1
+
+
 def _num_pitch(num, acc):
     return (nd.MAJOR_SIZES[NUMERALS.index(num)] + acc) % 12
 
@@ -389,7 +395,7 @@ def rule_substitutions(ctx, pmod, model):
                         continue
                     for i, ans in enumerate(v):
                         pn = _parse_numeral(ans)
-                        if pn is None or (pn[2] not in sh):
+                        if pn is None or (pn[2] not in sh) or not _canonical(ans):
                             bad.append((text(num, acc, sf), "ill-formed numeral", ans))
                             continue
                         n2, a2, s2 = pn
@@ -416,30 +422,36 @@ def rule_substitutions(ctx, pmod, model):
         sfs = ["", "7", "m", "M", "m7", "M7", "dim", "dim7"]
         calls = [((acc, sf), fi, [[text(num, acc, sf)], 0]) for acc in (-1, 0, 2) for sf in sfs]
         out = eval_calls(ctx, calls, model)
+        deep_accs = (-1, 0, 1) if ctx.tier != "thorough" else tuple(range(-3, 4))
+        deep = [((acc, sf, d), fi, [[text(num, acc, sf)], 0, d]) for acc in deep_accs for sf in sfs for d in (1, 2)]
+        out_deep = eval_calls(ctx, deep, model)
         bad = []
-        for (acc, sf), _, _a in calls:
-            kind, v = out[(acc, sf)]
+        for (k, _, a_) in [((acc, sf, 0), None, None) for (acc, sf), _, _a in calls] + deep:
+            acc, sf, d = k
+            kind, v = out[(acc, sf)] if d == 0 else out_deep[k]
             if kind != "return" or not isinstance(v, list):
-                bad.append((text(num, acc, sf), kind, v))
+                bad.append((text(num, acc, sf), "depth %d" % d, kind, v))
                 continue
             for ans in v:
                 pn = _parse_numeral(ans)
                 if pn is None or pn[2] not in sh:
-                    bad.append((text(num, acc, sf), "ill-formed numeral", ans))
-        ctx.check(not bad, R, "substitute.wellformed[%s]" % num, fi.where(), "substitute([<prefix>%s<suffix>], 0)" % num,
-                  "answers that are not <accidentals><numeral><constructible suffix>: %s" % bad[:3])
+                    bad.append((text(num, acc, sf), "depth %d" % d, "ill-formed numeral", ans))
+                elif not _canonical(ans):
+                    bad.append((text(num, acc, sf), "depth %d" % d, "sharps and flats mixed in the prefix (parse then format rewrites it)", ans))
+        ctx.check(not bad, R, "substitute.wellformed[%s]" % num, fi.where(), "substitute([<prefix>%s<suffix>], 0, depth 0..2)" % num,
+                  "%d answers that are not <sharps or flats><numeral><constructible suffix>: %s" % (len(bad), bad[:3]))
         # the diminished sevenths offered for a chord form one family: their roots cycle by minor thirds
         cyc = []
         for (acc, sf), _, _a in calls:
             kind, v = out[(acc, sf)]
             if kind != "return" or not isinstance(v, list):
                 continue
-            roots = [(_num_pitch(pn[0], pn[1]), ans) for ans in v for pn in [_parse_numeral(ans)] if pn is not None and pn[2] == "dim7"]
+            roots = [(_num_pitch(pn[0], pn[1]), ans) for ans in v for pn in [_parse_numeral(ans)] if pn is not None and pn[2] in ("dim7", "dim")]
             off = [(a, b) for (pa, a) in roots for (pb, b) in roots if (pa - pb) % 3 != 0]
             if off:
                 cyc.append((text(num, acc, sf), sorted({x for pair in off for x in pair})))
-        ctx.check(not cyc, R, "substitute.dim7-family[%s]" % num, fi.where(), "substitute([<prefix>%s<suffix>], 0): diminished sevenths" % num,
-                  "the diminished seventh substitutes do not cycle by minor thirds: %s" % cyc[:2])
+        ctx.check(not cyc, R, "substitute.dim7-family[%s]" % num, fi.where(), "substitute([<prefix>%s<suffix>], 0): diminished triads and sevenths" % num,
+                  "the diminished substitutes do not cycle by minor thirds: %s" % cyc[:2])
 
 
 def rule_argument_untouched(ctx, pmod, model):
